@@ -110,11 +110,12 @@ def _osp(st, default=" "):
     return [default, "\t", "  ", default][c]
 
 
-def expr(e, st=PLAIN, numctx="any", top=True):
-    """render expression; returns text"""
+def expr(e, st=PLAIN, numctx="any", top=True, lead=False):
+    """render expression; returns text.  lead: the text starts right after an infix operator, where pdpy11
+    does not accept a prefix operator (it must be bracketed)."""
     t = e[0]
     if t == "mark":
-        return MARK_OPEN + e[1] + MARK_CLOSE + expr(e[2], st, numctx, top) + MARK_OPEN + "/" + e[1] + MARK_CLOSE
+        return MARK_OPEN + e[1] + MARK_CLOSE + expr(e[2], st, numctx, top, lead) + MARK_OPEN + "/" + e[1] + MARK_CLOSE
     if t == "raw":
         return e[1]
     if t == "num":
@@ -146,8 +147,10 @@ def expr(e, st=PLAIN, numctx="any", top=True):
         elif st.pick("redundant-group", 4) == 1:
             inner = group(inner, st)
         if op.lower() == "^c" and not inner[0] in "(<":
-            return op + " " + inner
-        return op + inner
+            res = op + " " + inner
+        else:
+            res = op + inner
+        return group(res, st) if lead else res
     if t == "bin":
         op = e[1]
         if op == "|" and st.pick("or-bang", 2):
@@ -157,12 +160,14 @@ def expr(e, st=PLAIN, numctx="any", top=True):
         p = X.PREC[e[1]]
         a, b = e[2], e[3]
         sa, sb = _strip(a), _strip(b)
-        ta = expr(a, st, numctx, False)
-        tb = expr(b, st, numctx, False)
-        if (sa[0] == "bin" and X.PREC[sa[1]] > p) or st.pick("redundant-group", 5) == 1:
+        wrap_a = (sa[0] == "bin" and X.PREC[sa[1]] > p) or st.pick("redundant-group", 5) == 1
+        wrap_b = (sb[0] == "bin" and X.PREC[sb[1]] >= p) or st.pick("redundant-group", 5) == 1
+        ta = expr(a, st, numctx, False, lead and not wrap_a)
+        # a prefix operator directly after an infix operator is a syntax error in pdpy11: it gets bracketed (lead)
+        tb = expr(b, st, numctx, False, not wrap_b)
+        if wrap_a:
             ta = group(ta, st)
-        # a prefix operator directly after an infix operator is a syntax error in pdpy11: bracket it
-        if (sb[0] == "bin" and X.PREC[sb[1]] >= p) or sb[0] == "un" or st.pick("redundant-group", 5) == 1:
+        if wrap_b:
             tb = group(tb, st)
         if op in ("_", "%", "^", "<<", ">>", "!", "|", "&") or numctx == "branch":
             l = r = " "
